@@ -10,6 +10,32 @@ WT = "/tmp/wt-seedtest"
 def sh(cmd, **kw):
     return subprocess.run(cmd, shell=True, stdout=subprocess.PIPE, stderr=subprocess.STDOUT, text=True, **kw)
 
+CONFIRM = "--confirm" in sys.argv
+sys.argv = [a for a in sys.argv if a != "--confirm"]
+TGT = "/tmp/wt-seedtest-target"
+
+def confirm(d):
+    """the seed's own claims: demo passes on the clean tree, fails with the patch, and the
+    existing suite still passes with the patch"""
+    demo = open(d + "/demo.rs").read()
+    feats = " --features verif-hooks" if "verif-hooks" in demo.split("*/")[0] + demo[:1500] else ""
+    env = dict(os.environ, CARGO_TARGET_DIR=TGT, CARGO_NET_OFFLINE="true")
+    out = {}
+    shutil.copy(d + "/demo.rs", WT + "/tests/zz_seed_demo.rs")
+    c = sh("cargo test --offline --test zz_seed_demo%s 2>&1 | tail -5" % feats, cwd=WT, env=env)
+    out["demo_passes_on_clean_tree"] = "test result: ok" in c.stdout
+    a = sh("git -C %s apply %s/patch.diff" % (WT, d))
+    c = sh("cargo test --offline --test zz_seed_demo%s 2>&1 | tail -5" % feats, cwd=WT, env=env)
+    out["demo_fails_with_patch"] = "test result: FAILED" in c.stdout or "error: test failed" in c.stdout
+    if not out["demo_fails_with_patch"]:
+        c2 = sh("cargo test --offline --release --test zz_seed_demo%s 2>&1 | tail -5" % feats, cwd=WT, env=env)
+        out["demo_fails_with_patch"] = "FAILED" in c2.stdout or "error: test failed" in c2.stdout
+    os.remove(WT + "/tests/zz_seed_demo.rs")
+    c = sh("cargo test --offline --lib --tests 2>&1 | grep -E 'test result|FAILED|error' | head -20", cwd=WT, env=env)
+    out["existing_suite_passes_with_patch"] = "FAILED" not in c.stdout and "error" not in c.stdout and "test result: ok" in c.stdout
+    sh("git -C %s checkout -q -- . && git -C %s clean -fdq" % (WT, WT))
+    return out
+
 ids = sys.argv[1:] or sorted(d for d in os.listdir(V + "/seeded") if os.path.exists(V + "/seeded/" + d + "/patch.diff"))
 sh("git -C /repo worktree remove --force %s; git -C /repo worktree prune" % WT)
 r = sh("git -C /repo worktree add -q %s HEAD" % WT)
@@ -19,8 +45,12 @@ try:
         d = "%s/seeded/%s" % (V, i)
         meta = json.load(open(d + "/meta.json"))
         props = [meta["property"]] + list(meta.get("also", []))
+        conf = confirm(d) if CONFIRM else None
         a = sh("git -C %s apply %s/patch.diff" % (WT, d))
         res = {"applied": a.returncode == 0, "runs": {}}
+        if os.path.exists(d + "/result.json") and not CONFIRM:
+            conf = json.load(open(d + "/result.json")).get("confirmation")
+        res["confirmation"] = conf
         if a.returncode == 0:
             for p in props:
                 env = dict(os.environ, VERIF_REPO=WT, VERIF_DEV=p)
@@ -41,7 +71,7 @@ try:
         print(i, "CAUGHT" if res["caught"] else "MISSED", {p: r_["summary"][-60:] for p, r_ in res["runs"].items()})
 finally:
     sh("git -C /repo worktree remove --force %s; git -C /repo worktree prune" % WT)
-    sh("rm -rf %s/build/*-alt*" % V)
+    sh("rm -rf %s/build/*-alt* %s" % (V, TGT))
     # C20 regenerates Gen/Types.v from the tree it is pointed at: restore it from /repo
     if os.path.exists(V + "/tools/gen_types.py"):
         sh("python3 tools/gen_types.py", cwd=V)
